@@ -210,10 +210,11 @@ def audit(prop, modules, workdir):
         rc, log = sh(["lake", "env", "lean", path], cwd=LEAN, timeout=1200)
     results = {}
     # output: 'X' depends on axioms: [a, b]   |  'X' does not depend on any axioms
-    for m in re.finditer(r"'([^']+)' depends on axioms: \[([^\]]*)\]", log, flags=re.S):
+    # (a theorem name may itself end in primes: match lazily up to the fixed wording)
+    for m in re.finditer(r"^'([^\n]+?)' depends on axioms: \[([^\]]*)\]", log, flags=re.M):
         axs = set(a.strip() for a in m.group(2).replace("\n", " ").split(",") if a.strip())
         results[m.group(1)] = axs
-    for m in re.finditer(r"'([^']+)' does not depend on any axioms", log):
+    for m in re.finditer(r"^'([^\n]+?)' does not depend on any axioms", log, flags=re.M):
         results[m.group(1)] = set()
     ok, bad = [], []
     for n in names:
